@@ -6,6 +6,8 @@
 
 package types
 
+//@ import sdk "github.com/cosmos/cosmos-sdk/types"
+
 // C06: each transaction requires the signature of exactly the party the protocol assigns
 // (table written from the property statement, not from the code).
 //@ func (MsgCreateDeployment).GetSigners   // tenant
@@ -166,6 +168,14 @@ package types
 //@                 validateCPU#*, validateMemory#*, validateStorage#*, newLimits#*, validateResourceUnit#*, validateResourceGroup#*,
 //@                 (*resourceLimits).add#*, (*resourceLimits).mul#*
 
+// the maximum price of a group: the sum of its units' full prices (its byte-level loop is not under contract)
+//@ spec groupPrice(g: GroupSpec): sdk.Coin
+//@ func (GroupSpec).Price
+//@   trusted
+//@   ensures result == groupPrice(g)
+//@ func (GroupID).Validate
+//@   ensures result == nil <==> (validBech32(id.Owner) && bech32(unbech32(id.Owner)) == id.Owner && id.DSeq != 0 && id.GSeq != 0)
+
 // ---- ids, accessors, lifecycle guards (C04) ---------------------------------------
 //@ func (Deployment).ID
 //@   ensures result == obj.DeploymentID
@@ -245,6 +255,7 @@ package types
 //@   ensures evSig(result) == sigGroup(3, ev.ID)
 
 //@ property C05 := (DeploymentID).Validate#*, EscrowAccountForDeployment#*, ParseDeploymentPath#*, ParseDeploymentID#*, DeploymentIDFromEscrowAccount#*
+//@ property C08 := (GroupID).Validate#*
 //@ property C04 := EscrowAccountForDeployment#*, (Deployment).ID#*, (Group).ID#*, (GroupID).DeploymentID#*, MakeGroupID#*, (DeploymentID).Equals#*, (GroupID).Equals#*,
 //@                 (Group).ValidateClosable#*, (Group).ValidatePausable#*, (Group).ValidateStartable#*,
 //@                 NewEventDeploymentCreated#*, NewEventDeploymentUpdated#*, NewEventDeploymentClosed#*, NewEventGroupClosed#*, NewEventGroupPaused#*, NewEventGroupStarted#*
